@@ -1,17 +1,21 @@
 #!/venv/bin/python
-"""Single entry point:  /venv/bin/python harness/vcheck.py Cxx [--tier quick|thorough] [--replay f]"""
+"""Single entry point:  /venv/bin/python harness/vcheck.py Cxx [--tier quick|thorough] [--replay f]
+
+The check itself runs in a child process: if the code under test takes the main process of the check down
+(a crash while the scratch build is imported by a translator, say), that is reported as a violation with a
+replay file instead of ending the check with a signal."""
+import hashlib
 import importlib
+import json
 import os
+import subprocess
 import sys
 
 HERE = os.path.dirname(os.path.abspath(__file__))
 sys.path.insert(0, HERE)
 
 
-def main():
-    if len(sys.argv) < 2:
-        print(__doc__)
-        return 2
+def child():
     prop = sys.argv[1].upper()
     import engine
     pm = importlib.import_module("props." + prop.lower())
@@ -19,6 +23,35 @@ def main():
         return engine.main(pm, sys.argv[2:])
     except KeyboardInterrupt:
         return 2
+
+
+def main():
+    if len(sys.argv) < 2:
+        print(__doc__)
+        return 2
+    if os.environ.get("VERIF_VCHECK_CHILD") == "1":
+        return child()
+    env = dict(os.environ, VERIF_VCHECK_CHILD="1")
+    try:
+        rc = subprocess.call([sys.executable, os.path.abspath(__file__)] + sys.argv[1:], env=env)
+    except KeyboardInterrupt:
+        return 2
+    sig = -rc if rc < 0 else (rc - 128 if rc > 128 else 0)
+    if sig in (4, 6, 7, 8, 11):      # SIGILL, SIGABRT, SIGBUS, SIGFPE, SIGSEGV: crashes, not an external kill or timeout
+        prop = sys.argv[1].upper()
+        verif = os.path.dirname(HERE)
+        rdir = os.path.join(verif, "replays")
+        os.makedirs(rdir, exist_ok=True)
+        rec = {"property": prop, "kind": "oracle-hit", "signature": "crash:check-process",
+               "what": "the check's own process was killed by signal %d while running the code under test "
+                       "(outside the crash-tolerant workers: during the scratch build import, a translator or the setup)" % sig,
+               "argv": sys.argv[1:], "returncode": rc}
+        path = os.path.join(rdir, "%s-%s.json" % (prop, hashlib.sha1(json.dumps(rec, sort_keys=True).encode()).hexdigest()[:10]))
+        with open(path, "w") as f:
+            json.dump(rec, f, indent=1)
+        print("VIOLATION property=%s replay=%s" % (prop, path))
+        return 1
+    return rc
 
 
 if __name__ == "__main__":
